@@ -72,11 +72,19 @@ class AbstractOnlineUpdateVisitor(AbstractAstVisitor):
     def visit(self, node, *args, **kwargs):
         if node.name in self.visited:
             sample_return = self.visited[node.name]
-            self.results[node] = sample_return
+            self.record(node)
             return sample_return
         sample_return = super(AbstractOnlineUpdateVisitor, self).visit(node, *args, **kwargs)
         self.visited[node.name] = sample_return
         return sample_return
+
+    def record(self, node):
+        # a node that shares its operator with one evaluated earlier in this update is not
+        # visited again: it, and every node below it, takes the value computed under its name
+        self.results[node] = self.visited[node.name]
+        for child in node.children:
+            if child.name in self.visited:
+                self.record(child)
 
     def visitSpec(self, node, online_operator_dict, var_object_dict):
         sample_return = self.visit(node, online_operator_dict, var_object_dict)
